@@ -48,6 +48,7 @@ pub fn run(obligation: &str) -> i32 {
     if ["C06.generate_integer", "C06.integer_template", "C04.generate_typealias", "C04.generate_octet_string", "C04.generate_bit_string", "C04.typealias_template", "C04.octet_string_template", "C04.fixed_octet_string_template", "C04.bit_string_template", "C04.fixed_bit_string_template"].iter().any(|p| obligation.starts_with(p)) { gen_assignments(&mut rep); return rep.finish("GEN_assignments"); }
     if obligation.starts_with("C02.type_table") || obligation.starts_with("C02.string_type") || obligation.starts_with("C02.qualified_type") { gen_type_table(&mut rep); return rep.finish("GEN_type_table"); }
     if obligation.starts_with("C07.value_to_tokens") { gen_values(&mut rep); return rep.finish("GEN_values"); }
+    if obligation.starts_with("C14.format_identifier_annotation") { gen_identifier(&mut rep); return rep.finish("GEN_emission"); }
     if obligation.starts_with("C03.generate_any") || obligation.starts_with("C03.any_template") { gen_any(&mut rep); return rep.finish("GEN_blocks"); }
     if obligation.starts_with("C02.generate_type") || obligation.starts_with("C02.generate_tld") { gen_dispatch(&mut rep); return rep.finish("GEN_dispatch"); }
     if obligation.starts_with("C02.format_sequence_or_set_members") || obligation.starts_with("C02.format_choice_options") { gen_member_lists(&mut rep); return rep.finish("GEN_members"); }
@@ -603,6 +604,21 @@ fn gen_any(rep: &mut Rep) {
             rep.check("C03.generate_any.newtype_over_any_with_delegate_its_own_tag_and_the_identifier_when_mangled", matches!(&got, Ok(t) if nows(t).contains(&want)), d);
             rep.check("C03.any_template.newtype_over_any", matches!(&got, Ok(t) if nows(t).contains("pubstructT(pubAny);")), d);
         }
+    }
+}
+
+/// format_identifier_annotation on the real crate: names incl. hyphens, keywords, upper / lower case, quotes are impossible in identifiers; expected `identifier = "<name>"` verbatim
+fn gen_identifier(rep: &mut Rep) {
+    use rasn_compiler::verif_hooks::hook_identifier_annotation;
+    let nows = |s: &str| s.chars().filter(|c| !c.is_whitespace()).collect::<String>();
+    let ty = ASN1Type::Boolean(Boolean { constraints: vec![] });
+    for name in ["a", "my-field", "type", "Self", "x1-y2-z3", "veryLongIdentifierWithMixedCase-and-hyphens-0123456789", "r-type", "ext-group"] { for comments in ["", " some comment ", "Inner type", " anonymous "] {
+        let got = hook_identifier_annotation(name, comments, &ty);
+        rep.check("C14.format_identifier_annotation.a_named_item_keeps_exactly_its_asn1_name", nows(&got) == format!("identifier=\"{name}\""), || format!("name={name} comments={comments:?} -> {got}"));
+    } }
+    for (name, comments) in [("f", " Inner type "), ("f", " Anonymous SET OF member "), ("ext_group_f", "")] {
+        let got = hook_identifier_annotation(name, comments, &ty);
+        rep.check("C14.format_identifier_annotation.a_synthetic_item_is_identified_by_its_type", nows(&got) == "identifier=\"BOOLEAN\"", || format!("name={name} comments={comments:?} BOOLEAN -> {got}"));
     }
 }
 
